@@ -35,7 +35,7 @@ P = {
                 runs=[dict(cmd="c04", quick=80, thorough=8000, shards_thorough=8)], vm_k=4),
     "C05": dict(theorems=["Properties/C05.v"],
                 runs=[dict(cmd="c05", quick=80, thorough=8000, shards_thorough=8),
-                      dict(cmd="c05node", quick=8, thorough=400, shards_thorough=8, model=False)], vm_k=4),
+                      dict(cmd="c05node", quick=8, thorough=400, shards_thorough=8)], vm_k=4),
     "C06": dict(theorems=["Properties/C06.v"],
                 runs=[dict(cmd="c06", quick=80, thorough=8000, shards_thorough=8),
                       dict(cmd="c06node", quick=10, thorough=1500, shards_thorough=8, model=False)], vm_k=4),
@@ -150,8 +150,8 @@ META = {
                 technique="Coq proof (case analysis over Run by Ltac, effect-list algebra) + differential correspondence on the real node + frame monitors"),
     "C04": dict(text="Theorems: acceptance implies chain id = network and nonce = last + 1; nonces never decrease along any history; once accepted, the same transaction or any transaction of that sender with a nonce not above it is rejected with the state untouched after any further history. " + LM + "The harness re-delivers earlier bytes, stale and future nonces.",
                 note=LN, technique="Coq proof (monotone nonce invariant over histories) + differential correspondence on the real node + replay monitors"),
-    "C05": dict(text="Theorems: if any delivered transaction (accepted or rejected) decreases a balance of account a, the multisig gate passed and a is the sender or the issuer of the redeemed check; the multisig gate means: account exists, <= 32 and <= #owners signatures, all recoverable and distinct, uint32 weight sum of listed owners >= threshold. " + LM + "Monitors on the node: every balance decrease is attributable to the sender/payer; candidate settings (EditCandidate, EditCandidateCommission) are accepted only from the owner recorded before the transaction, on/off switching only from the owner or the control address (histories in which owners hand the control address to other accounts, which then try the owner-only operations).",
-                note=LN + "Candidate settings are NOT modelled in Coq: only the node-level monitor c05-candidate-* speaks about them. Stakes, waitlist, orders: node-level monitors of C14/C16/C18.",
+    "C05": dict(text="Theorems: if any delivered transaction (accepted or rejected) decreases a balance of account a, the multisig gate passed and a is the sender or the issuer of the redeemed check; the multisig gate means: account exists, <= 32 and <= #owners signatures, all recoverable and distinct, uint32 weight sum of listed owners >= threshold. " + LM + "Candidate settings (Model/CandAuth.v, the two authorization checks of edit_candidate.go): along every history of EditCandidate / EditCandidateCommission / SetCandidateOn / SetCandidateOff the settings change only by the owner recorded right before the transaction and the switch flips only by that owner or control address, anybody else gets code 406 and changes nothing (C05_candidate_settings_by_owner_only, C05_candidate_unauthorized_rejected); tie: model 21 on every such transaction of node histories in which owners hand the control address to other accounts, which then try the owner-only operations (accepted => authorized, 406 => not). Monitors on the node: every balance decrease is attributable to the sender/payer; candidate-authorization monitor.",
+                note=LN + "Of the candidate transactions only the authorization decision and the changed fields are modelled (their other checks are an oracle bit); EditCandidatePublicKey and the vote transactions are not. Stakes, waitlist, orders: node-level monitors of C14/C16/C18.",
                 technique="Coq proof (sign analysis of effect lists) + differential correspondence on the real node + attribution monitor"),
     "C06": dict(text="Theorem: check mode accepts iff deliver mode on the same state accepts (gas-price floor 0, empty mempool); the deliver-only branches never flip the verdict. " + LM + "Every generated transaction is run through check-mode RunTx on the in-flight state and then delivered; verdicts compared.",
                 note=LN + "Found and repaired with this check: f5184b1.",
